@@ -273,3 +273,97 @@ Proof.
   split; [exact ex_wf|]. split; [exact ex_maint|]. split; [exact ex_dead_covered|].
   split; [exact (proj1 ex_answer)|]. vm_compute. reflexivity.
 Qed.
+
+(* ------------------------------------------------------------------ *)
+(** * No resurrection, lifted to the structured model for ARBITRARY later operations *)
+
+Lemma answer_equiv_in a b (i : sid) pts :
+  answer_equiv a b -> In (i, pts) a -> exists pts', In (i, pts') b /\ pts_equiv pts pts'.
+Proof.
+  unfold answer_equiv. intros H. induction H as [|p q a b [Hf Hp] _ IH]; intros Hin; [inversion Hin|].
+  destruct Hin as [E|Hin].
+  - subst p. destruct q as [j pts']. cbn in Hf, Hp. subst j. exists pts'. split; [left; reflexivity|exact Hp].
+  - destruct (IH Hin) as [pts' [Hin' He]]. exists pts'. split; [right; exact Hin'|exact He].
+Qed.
+
+Lemma pts_equiv_in a b (t : Z) vs :
+  pts_equiv a b -> In (t, vs) a -> exists vs', In (t, vs') b /\ forall v, In v vs <-> In v vs'.
+Proof.
+  unfold pts_equiv. intros H. induction H as [|p q a b [Hf Hv] _ IH]; intros Hin; [inversion Hin|].
+  destruct Hin as [E|Hin].
+  - subst p. destruct q as [u vs']. cbn in Hf, Hv. subst u. exists vs'. split; [left; reflexivity|exact Hv].
+  - destruct (IH Hin) as [vs' [Hin' He]]. exists vs'. split; [right; exact Hin'|exact He].
+Qed.
+
+Lemma acked_in_map_commit (ops : list op) i x :
+  acked_in (map spec_of_op ops) i x ->
+  exists l lg f, In (Commit l lg f) ops /\ In (i, x) (map (fun a => (fst (fst a), snd (fst a))) l).
+Proof.
+  intros [l [Hin Hx]]. apply in_map_iff in Hin. destruct Hin as [o [Ho Hin]].
+  destruct o as [l0 lg f|mi ma se| | | |rl|pend]; cbn in Ho; try discriminate.
+  inversion Ho; subst l. exists l0, lg, f. split; assumption.
+Qed.
+
+Lemma no_resurrection_history_partial : forall (c : cfg) (ops1 ops2 : list op) mint maxt sel,
+  wf_cfg c -> wf_ops c state0 (ops1 ++ Delete mint maxt sel :: ops2) ->
+  dead_covered (run c (ops1 ++ Delete mint maxt sel :: ops2)) ->
+  forall qmin qmax qsel i pts t vs v,
+    In (i, pts) (query (run c (ops1 ++ Delete mint maxt sel :: ops2)) qmin qmax qsel) ->
+    In i sel -> In (t, vs) pts -> mint <= t <= maxt -> In v vs ->
+    exists l lg f, In (Commit l lg f) ops2 /\ In (i, mkS t v) (map (fun a => (fst (fst a), snd (fst a))) l).
+Proof.
+  intros c ops1 ops2 mint maxt sel Hw Hwf Hdc qmin qmax qsel i pts t vs v Hin Hsel Hpt Hr Hv.
+  pose proof (refinement_partial c _ Hw Hwf Hdc qmin qmax qsel) as He.
+  destruct (answer_equiv_in _ _ i pts He Hin) as [pts' [Hin' Hpe]].
+  destruct (pts_equiv_in _ _ t vs Hpe Hpt) as [vs' [Hpt' Hvs]].
+  destruct (spec_query_exact _ _ _ _ _ _ Hin') as (_ & _ & _ & Hex & _).
+  destruct (Hex t vs' Hpt') as (_ & _ & Hlive).
+  assert (Hx : In (mkS t v) (spec_run (map spec_of_op (ops1 ++ Delete mint maxt sel :: ops2)) i)).
+  { apply Hlive, Hvs, Hv. }
+  rewrite map_app in Hx. cbn [map spec_of_op] in Hx.
+  apply acked_in_map_commit.
+  exact (no_resurrection_spec _ _ mint maxt sel i (mkS t v) Hx Hsel Hr).
+Qed.
+
+(* ------------------------------------------------------------------ *)
+(** * The hypothesis dead_covered cannot be dropped: a FINDING on the code as it is.
+    Series 1 has -707, -498, 0 in ONE head chunk (rangeForTimestamp(-707) = 1000 by truncating
+    division, so the chunk straddles 0); Delete(-707,-707); the head compaction writes block
+    [-1000,0) without -707, truncates the head to 0, Head.gc drops the tombstone
+    (MemTombstones.TruncateBefore(0)) but keeps the chunk, and the head querier (no floor at
+    Head.MinTime) returns -707 again.  Replayed on the real tsdb.DB by the harness
+    (C20_FINDINGS=1, corpus finding-head-compaction-resurrects-deleted-sample...). *)
+Definition rf_cfg : cfg := mkCfg 1000 0 [0; 1].
+Definition rf_ops1 : list op :=
+  [ cmc [0] [io 0 (-1000) 1]; cmc [1] [io 1 (-707) 2]; cm [io 1 (-498) 3; io 1 0 4]; cm [io 0 503 5] ].
+Definition rf_ops2 : list op := [ Compact ].
+
+Lemma rf_wf : wf_cfg rf_cfg /\ wf_ops rf_cfg state0 (rf_ops1 ++ Delete (-707) (-707) [1] :: rf_ops2).
+Proof.
+  split; [unfold wf_cfg; cbn; lia|].
+  unfold rf_ops1, rf_ops2. cbn [app wf_ops wf_op].
+  repeat match goal with
+  | |- _ /\ _ => split
+  | |- True => exact I
+  end;
+  try (vm_compute; repeat split; auto; try lia; try discriminate; intuition congruence).
+  all: try (intros i y [<-|[]] Hy; vm_compute in Hy; contradiction).
+Qed.
+
+Lemma delete_history_refuted :
+  exists (c : cfg) (ops1 ops2 : list op) mint maxt sel,
+    wf_cfg c /\ wf_ops c state0 (ops1 ++ Delete mint maxt sel :: ops2) /\ forallb is_maint ops2 = true /\
+    ~ answer_equiv (query (run c (ops1 ++ Delete mint maxt sel :: ops2)) minInt64 maxInt64 [0; 1])
+                   (del_answer mint maxt sel (spec_query (spec_run (map spec_of_op ops1)) minInt64 maxInt64 [0; 1])).
+Proof.
+  exists rf_cfg, rf_ops1, rf_ops2, (-707), (-707), [1].
+  destruct rf_wf as [Hw Hwf]. split; [exact Hw|]. split; [exact Hwf|]. split; [reflexivity|].
+  intros H. apply answer_equiv_shape in H. vm_compute in H. discriminate.
+Qed.
+
+Lemma rf_detail :
+  shape (query (run rf_cfg (rf_ops1 ++ Delete (-707) (-707) [1] :: rf_ops2)) minInt64 maxInt64 [0; 1])
+    = [(0, [-1000; 503]); (1, [-707; -498; 0])] /\
+  shape (query (run rf_cfg (rf_ops1 ++ [Delete (-707) (-707) [1]])) minInt64 maxInt64 [0; 1])
+    = [(0, [-1000; 503]); (1, [-498; 0])].
+Proof. vm_compute. split; reflexivity. Qed.
